@@ -94,6 +94,8 @@ type Broker struct {
 
 	// Hook is consulted for every inbound message (after it was logged). nil = Default.
 	Hook func(inc *Inc, e *Entry) Verdict
+	// After is called after the default handling of an inbound message (feeders: send follow-up traffic).
+	After func(inc *Inc, e *Entry)
 	// OnChunk replaces the default "ack immediately with success" for upstream chunks.
 	OnChunk func(inc *Inc, up *UpState, e *Entry)
 	// AnswerPing false: pings are not answered (dead peer).
@@ -281,6 +283,9 @@ func (inc *Inc) loop() {
 			return
 		}
 		inc.B.handle(inc, e)
+		if inc.B.After != nil {
+			inc.B.After(inc, e)
+		}
 		if v == SeverAfter {
 			inc.Link.Sever()
 			return
